@@ -3,9 +3,31 @@ evidence says about the enumeration."""
 
 MAX_REPORT = 12
 
-BINARIES = {
-    'hmain': {'pkg': './cmd/hmain', 'overlay': 'plain', 'flags': ['-gcflags=all=-l']},
-}
+import os, glob, importlib.util
+
+BINARIES = {}
+PROPS = {}
+POST = {}
+
+
+def default_binary(name):
+    return {'pkg': './cmd/' + name, 'overlay': 'plain', 'flags': ['-gcflags=all=-l']}
+
+
+def _load():
+    d = os.path.join(os.path.dirname(os.path.abspath(__file__)), 'props')
+    for f in sorted(glob.glob(os.path.join(d, 'C*.py'))):
+        pid = os.path.basename(f)[:-3]
+        sp = importlib.util.spec_from_file_location('props_' + pid, f)
+        mod = importlib.util.module_from_spec(sp)
+        sp.loader.exec_module(mod)
+        PROPS[pid] = mod.SPEC
+        for k, v in getattr(mod, 'BINARIES', {}).items():
+            BINARIES[k] = v
+        for job in mod.SPEC['jobs']:
+            BINARIES.setdefault(job['bin'], default_binary(job['bin']))
+        if hasattr(mod, 'post'):
+            POST[pid] = mod.post
 
 ENGINES = [
     {'name': 'H', 'path': 'harness/vk + harness/cNN', 'serves_properties': [], 'kind_free_text': 'history explorer: exhaustive enumeration of operation sequences up to a depth, replayed from scratch on the real library against a reference model'},
@@ -15,19 +37,5 @@ ENGINES = [
 
 NOT_YET = {}
 
-PROPS = {
-    'C08': {
-        'level': 'model_checking',
-        'engine': 'H',
-        'technique': 'explicit-state exploration of all operation histories up to a depth bound on the real library, compared step by step with a reference model',
-        'claim': 'every history of Set/Apply/Lookup/Cancel/Reset up to depth 5 (quick, one builder) or 6 (thorough, two builders) on 16 variable types, by pointer and by name, leaves the variable equal to the model value after every step',
-        'note': 'bounded depth; types limited to the 16 listed; two-builder histories whose expected value depends on the reading of "first mock in that builder" are unjudged',
-        'jobs': [{'bin': 'hmain', 'shards': 16}],
-        'rule': 'engine H: every history of length <= d over {Set1,Set2,Apply3,Lookup,Cancel,Reset} (x2 builders in thorough) '
-                'for 16 variable types x {by pointer, by name}; replayed from scratch on the real library and on the '
-                '"value before the first mock in that builder" model, variable read (accessor + direct) after every step. '
-                'distinct_nontrivial = distinct (variable, addressing, history) containing at least one Set/Apply.',
-        'assumptions': ['by-name addressing is exercised only where the value type equals the variable type (documented API limit: no interface-typed variables)',
-                        'two-builder histories on which the literal and the per-epoch reading of "first mock in that builder" differ are executed but not judged'],
-    },
-}
+
+_load()
